@@ -42,7 +42,8 @@ def Dec.readFrame (s : Stream) (d : Dec) : Res (Option FrameInfo × Dec) :=
     match d.rest with
     | [] => .error .eof
     | f :: fs =>
-      if f.len == t - d.cur || f.len > 14 then .ok (some f, { rest := fs, cur := d.cur + f.len })
+      if Gen.decOvershootIsError && f.len > t - d.cur then .error (.err "TooManySamples")
+      else if f.len == t - d.cur || f.len > 14 then .ok (some f, { rest := fs, cur := d.cur + f.len })
       else .error (.err "ShortBlock")
   | none =>
     match d.rest with
@@ -108,7 +109,10 @@ def bytesPerSample (bps : Nat) : Nat := (bps + 7) / 8
 
 /-- `to_buf`: a sample as `ceil(bps/8)` bytes (two's complement truncation), little or big endian -/
 def sampleBytes (n : Nat) (be : Bool) (x : Int) : List Nat :=
-  let le := (List.range n).map fun i => ((x / (256 : Int) ^ i) % 256).toNat
+  -- `i24_to_bytes` (byteorder.rs) is not a plain truncation for out-of-range negative values:
+  -- `0x800000 | ((sample - (-1 << 23)) as u32)`, then the low three bytes
+  let u : Int := if n == 3 && x < 0 then Int.ofNat (Nat.lor 8388608 ((x + 8388608) % 4294967296).toNat) else x
+  let le := (List.range n).map fun i => ((u / (256 : Int) ^ i) % 256).toNat
   if be then le.reverse else le
 
 def frameSamples (f : FrameInfo) : List Int := interleave f.chans
